@@ -33,10 +33,11 @@ type vMonitor struct {
 	headAdm     map[int]bool    // per key: was an admissible head already queued at the previous quiescent moment
 	opTimeouts  map[int]bool    // keys on which a waiter was answered TIMEOUT during the current op
 	updatedKeys map[string]bool // key/lockId pairs whose terms were changed by a re-lock or update (looser upper bound)
+	ledger      map[int]map[int]int // per key: LockId → depth, kept from the REPLIES alone (not from the engine's records)
 }
 
 func vNewMonitor(out *vOut, x *vRun) *vMonitor {
-	return &vMonitor{out: out, x: x, reqs: map[int]*vReqInfo{}, seen: map[string]bool{}, updatedKeys: map[string]bool{}, headAdm: map[int]bool{}, opTimeouts: map[int]bool{}}
+	return &vMonitor{out: out, x: x, reqs: map[int]*vReqInfo{}, seen: map[string]bool{}, updatedKeys: map[string]bool{}, ledger: map[int]map[int]int{}, headAdm: map[int]bool{}, opTimeouts: map[int]bool{}}
 }
 
 // report defers emission until the whole op line is known (it is the replay).
@@ -141,6 +142,38 @@ func (m *vMonitor) onReply(r vReply) {
 	if (r.result == 0 || r.result == protocol_RESULT_LOCKED_ERROR && ri.op.kind == 'L' || r.result == protocol_RESULT_UNOWN_ERROR && ri.op.kind == 'L' && ri.op.flag&1 != 0) && !depthOK {
 		m.report("C17:lrcount", fmt.Sprintf("reply %v reports LRCount %d, but no outstanding hold of that LockId has that depth: %v", r, r.lrcount, ks.holds))
 	}
+	// ---- C01 from the replies alone: the engine's own records are not consulted, so a grant made through a second, disconnected
+	// record of the same key (which the record-based check below cannot see) is still counted
+	if x.v.db.status == STATE_LEADER && ri.op.flag&4 == 0 {
+		lg := m.ledger[r.key]
+		if lg == nil {
+			lg = map[int]int{}
+			m.ledger[r.key] = lg
+		}
+		switch {
+		case r.result == 0 && ri.op.kind == 'L' && ri.op.expried > 0 && r.lrcount == 1:
+			if _, dup := lg[r.lockId]; !dup {
+				pre := 0
+				for _, d := range lg {
+					pre += d
+				}
+				if pre > ri.op.count && ri.op.count < 0xffff {
+					m.report("C01:ledger-exceeds-request-count", fmt.Sprintf("by the replies alone: request %d (Count %d) was granted as a new holder of key %d while holds of total depth %d were outstanding (%v)", r.req, ri.op.count, r.key, pre, lg))
+				}
+			}
+			lg[r.lockId] = 1
+		case r.result == 0 && ri.op.kind == 'L' && ri.op.expried > 0 && r.lrcount > 1:
+			lg[r.lockId] = r.lrcount
+		case r.result == 0 && ri.op.kind == 'U':
+			if r.lrcount == 0 {
+				delete(lg, r.lockId)
+			} else {
+				lg[r.lockId] = r.lrcount
+			}
+		case r.result == protocol_RESULT_EXPRIED:
+			delete(lg, r.lockId)
+		}
+	}
 	// ---- C01: a grant as a NEW holder
 	if r.result == 0 && ri.op.kind == 'L' && r.lrcount == 1 && ri.op.expried > 0 && len(ks.holds) > 0 && ks.holds[len(ks.holds)-1].req == r.req {
 		pre := sum - 1
@@ -150,6 +183,34 @@ func (m *vMonitor) onReply(r vReply) {
 		}
 		if oldest.req != r.req && pre > oldest.count {
 			m.report("C01:exceeds-oldest-count", fmt.Sprintf("request %d was granted as a new holder of key %d with %d holds outstanding, oldest holder's Count is %d", r.req, r.key, pre, oldest.count))
+		}
+	}
+	// ---- C04: a NEWCOMER is granted past queued requests only with the priority flag and a priority strictly above all of them
+	if r.result == 0 && ri.op.kind == 'L' && m.cur.kind == 'L' && m.cur.req == r.req && ri.op.expried > 0 && len(ks.waits) > 0 && x.v.db.status == STATE_LEADER && ri.op.flag&4 == 0 {
+		wasHolder := false
+		for _, h := range m.beforeHolds {
+			if h.lockId == r.lockId {
+				wasHolder = true
+			}
+		}
+		if !wasHolder {
+			maxp, nq := 0, 0
+			for _, w := range ks.waits {
+				var id, rq int
+				var tt int64
+				fmt.Sscanf(strings.ReplaceAll(w, ".", " "), "%d %d %d", &id, &rq, &tt)
+				wi := m.reqs[rq]
+				if wi == nil || wi.op.tflag&0x200 != 0 {
+					continue // a request with the wait-when-unlocked flag queues on a FREE key by its own flag: it is not overtaken by a grant
+				}
+				nq++
+				if wi.op.tflag&0x10 != 0 && wi.op.rcount > maxp {
+					maxp = wi.op.rcount
+				}
+			}
+			if nq > 0 && (ri.op.tflag&0x10 == 0 || ri.op.rcount <= maxp) {
+				m.report("C04:overtook-queue", fmt.Sprintf("new request %d (priority flag %v, Rcount %d) was granted on key %d past %d queued request(s) whose highest priority is %d", r.req, ri.op.tflag&0x10 != 0, ri.op.rcount, r.key, len(ks.waits), maxp))
+			}
 		}
 	}
 	// ---- C04: a grant from the queue goes to the request that a stable priority queue would serve first
@@ -301,6 +362,29 @@ func (m *vMonitor) after(x *vRun, o vOp, ob string) {
 			}
 		}
 	}
+	// ---- C02: a re-lock never succeeds past depth 255 (the depth byte would wrap)
+	if o.kind == 'L' && x.v.db.status == STATE_LEADER && o.flag&2 == 0 && o.expried > 0 {
+		ri := m.reqs[o.req]
+		var was []vHoldSnap
+		for _, h := range m.beforeHolds {
+			if h.lockId == o.lockId {
+				was = append(was, h)
+			}
+		}
+		if len(ri.terminal) == 1 && ri.terminal[0].result == 0 && len(was) == 1 && o.flag&1 == 0 {
+			now := -1
+			for _, h := range x.v.keySnap(o.key).holds {
+				if h.lockId == o.lockId {
+					now = h.depth
+				}
+			}
+			// only the ceiling is judged here: below it a same-LockId request may legitimately be admitted as a NEW hold (the old one
+			// lazily removed), which the correspondence with the model covers
+			if was[0].depth >= 255 && ri.terminal[0].lrcount != 1 {
+				m.report("C02:relock-past-255", fmt.Sprintf("re-lock %d (Rcount %d) of LockId %d at depth %d succeeded (reply LRCount %d, depth now %d): the depth byte cannot count past 255", o.req, o.rcount, o.lockId, was[0].depth, ri.terminal[0].lrcount, now))
+			}
+		}
+	}
 	// ---- C05 / C06: a request just queued / a hold whose terms were just set must not be scheduled to end before T / E
 	if o.kind == 'L' {
 		ri := m.reqs[o.req]
@@ -330,6 +414,20 @@ func (m *vMonitor) after(x *vRun, o vOp, ob string) {
 	totalLocked, totalWait := 0, 0
 	for _, key := range x.keys {
 		ks := x.v.keySnap(key)
+		if lg := m.ledger[key]; lg != nil { // re-base the ledger on what is really held (it only needs to be right between two operations)
+			real := map[int]int{}
+			for _, h := range ks.holds {
+				real[h.lockId] += h.depth
+			}
+			for id := range lg {
+				if _, ok := real[id]; !ok {
+					delete(lg, id)
+				}
+			}
+			for id, d := range real {
+				lg[id] = d
+			}
+		}
 		sum := 0
 		for _, h := range ks.holds {
 			sum += h.depth
